@@ -127,26 +127,29 @@ Section Model.
         end
     end.
 
+  (* the Euler completion in the coordinates where the given row is the
+     first row and the given column the first column:
+     row = cos b, -cos g sin b, sin g sin b; col = cos b, cos a sin b, sin a sin b *)
+  Definition nm5_full (row col : V3 T) : M3 T :=
+    let sb := ssqrt S (vy row *! vy row +! vz row *! vz row) in
+    let cb := vx row in
+    let nz := negb (isz sb) in
+    let cg := if nz then (-! vy row) /! sb else 1! in
+    let sg := if nz then vz row /! sb else 0! in
+    let ca := if nz then vy col /! sb else 1! in
+    let sa := if nz then vz col /! sb else 0! in
+    mkV row
+        (mkV (vy col) (ca *! cb *! cg -! sa *! sg) ((-! cg) *! sa -! ca *! cb *! sg))
+        (mkV (vz col) (ca *! sg +! cb *! cg *! sa) (ca *! cg -! cb *! sa *! sg)).
+
   Definition nm5 (m : M3 (option T)) : res (M3 T) :=
     let complete := fun r : V3 (option T) => is_some (all_some r) in
     match first_idx complete m, first_idx complete (transpose m) with
     | Some ir, Some ic =>
         match all_some (vget ir m), all_some (vget ic (transpose m)) with
         | Some row0, Some col0 =>
-            let row := rotl ic row0 in
-            let col := rotl ir col0 in
-            let sb := ssqrt S (vy row *! vy row +! vz row *! vz row) in
-            let cb := vx row in
-            let nz := negb (isz sb) in
-            let cg := if nz then (-! vy row) /! sb else 1! in
-            let sg := if nz then vz row /! sb else 0! in
-            let ca := if nz then vy col /! sb else 1! in
-            let sa := if nz then vz col /! sb else 0! in
-            let full :=
-              mkV row
-                  (mkV (vy col) (ca *! cb *! cg -! sa *! sg) ((-! cg) *! sa -! ca *! cb *! sg))
-                  (mkV (vz col) (ca *! sg +! cb *! cg *! sa) (ca *! cg -! cb *! sa *! sg)) in
-            Ok (vmap (roll ic) (roll ir full))
+            (* numpy.roll of the rows by ir, then of the columns by ic *)
+            Ok (vmap (roll ic) (roll ir (nm5_full (rotl ic row0) (rotl ir col0))))
         | _, _ => Err EStop
         end
     | _, _ => Err EStop
